@@ -7,6 +7,22 @@ import sys
 VERIF = os.path.dirname(os.path.dirname(os.path.abspath(__file__)))
 sys.path.insert(0, VERIF)
 
+ADDED_SESSION6 = {
+    "C01": "STATE.solver-per-query on the shared short cut (a solver kept on the operator beyond the call is empty again at every exit).",
+    "C03": "W.decision short cuts on an empty family of correction sets, evaluated against the comparison on all pairs of families with that emptiness.",
+    "C06": "DIAG.flags also over partitions without layers (the strict partition of the empty base is falsy but not False).",
+    "C09": "KEY.no-reserved of the c-inference query variables.",
+    "C10": "QUERIES.forward (the query container keeps keys, order and signature of what it was built from; by evaluation on concrete mappings).",
+    "C12": "MCS.loop (no stop on the cost of a model) and CNF.roles (query CNFs not looked up by printed text).",
+    "C14": "TIMEOUT.flow on finally blocks (no return/break/continue that discards an expiry in flight); TIMEOUT.int (the timeout handed to z3 cannot be a float).",
+    "C15": "MCS.loop: no family returned without a solver call, explored also on a WCNF without soft clauses; CNF.roles on a state left by an earlier call (every conditional is translated anew).",
+    "C16": "RANK.all (compute_all_ranks over every state of lazy computation), FACT.shape signature of the ranked base, RANK.min memo audit on subclass overrides.",
+    "C17": "RANK.all; CREP.system (the constraint system is not looked up under the base object); cond.index is modelled as unrelated to the key (FRONT.wiring reads eta by key).",
+    "C18": "ACCEPT.decision: both formula ranks are taken on the ranking object itself.",
+    "C19": "REV.relation parameters also for values fixed to 0 (fixedness is membership, not truthiness of the value).",
+    "C20": "SAVE.unchanged (no write to self before the file operations of save_metadata / export_impacts); STATE.pickled round trip on a small concrete object for subclasses that override __getstate__ / __setstate__.",
+}
+
 LEVEL_TEXT = ("static conformance of the code's shape to the obligation table of the clauses listed in DESIGN.md "
               "section 4 for this property: every rule instance is extracted from /repo's working tree on each run by the "
               "path-sensitive effect extractor (abstract interpretation with uninterpreted branch predicates, no solver) or "
@@ -134,6 +150,8 @@ def main():
     for pid in props:
         if pid in CLAIMED:
             ref, note, tech = CLAIMED[pid]
+            if pid in ADDED_SESSION6:
+                note = note + " Added in the sixth session: " + ADDED_SESSION6[pid]
             checks.append({
                 "property_id": pid,
                 "quick_cmd": f"/verif/vcheck {pid} --tier quick",
